@@ -138,6 +138,24 @@ func plan(d *mon.Driver) ([]CaseData, []target, map[string]bool, []string, error
 		c.Kind = "generic"
 		cases = append(cases, c)
 	}
+	// "bare-vos": the supplied OS is a VirtualOS built with no options at all — no mounts, no user, no exit
+	// handler. Whatever it cannot answer must surface as an error or an empty virtual answer: never the
+	// real machine's data, never the end of the host process.
+	perBare := map[string]int{}
+	for i := 0; i < nBase; i++ {
+		c := cases[i]
+		if c.Ctx != "top" {
+			continue
+		}
+		if perBare[c.Op+c.Route] >= d.N(3, 1000) {
+			continue
+		}
+		perBare[c.Op+c.Route]++
+		c.Ctx = "bare-vos"
+		c.Events, c.Want, c.WantRe, c.Has, c.Post, c.Stdout, c.Stderr = false, "", "", nil, nil, "", ""
+		c.Kind = "generic"
+		cases = append(cases, c)
+	}
 	for op := range rec {
 		if !live[op] {
 			notes = append(notes, "recipe for "+op+" has no live function (skipped)")
@@ -425,7 +443,7 @@ func drive(d *mon.Driver, replay string) int {
 	}
 	d.Extra("live_operation_names", opNames)
 	d.Extra("operations_without_recipe_called_generically", gl)
-	d.Extra("contexts", append(append([]string{}, contexts...), "cancel-defer"))
+	d.Extra("contexts", append(append([]string{}, contexts...), "cancel-defer", "bare-vos"))
 	d.Extra("routes", routes)
 	d.Extra("exhaustive", false)
 	return d.Finish(d.N(6000, 40000), d.N(2000, 8000))
@@ -493,6 +511,24 @@ func judge(d *mon.Driver, c *CaseData, o *Out, ext []string, called map[string]i
 			}
 		}
 	}
+	// the real machine's identity (home directory, host name, user record)
+	script := c.Setup + c.OpSrc
+	for _, id := range []struct{ what, val string }{{"home directory", o.RealHome}, {"host name", o.RealHost}, {"user record", `"username": "` + o.RealUser + `"`}} {
+		if len(id.val) < 4 || strings.Contains(script, id.val) || strings.Contains(id.val, "VERIFSENT") {
+			continue
+		}
+		// as a value of its own: not as the tail of a longer path or name
+		re := regexp.MustCompile(`(^|[^A-Za-z0-9_./-])` + regexp.QuoteMeta(id.val) + `($|[^A-Za-z0-9_/.-])`)
+		if base := filepath.Base(id.val); id.what == "home directory" && len(base) > 0 && strings.Contains(script, base) {
+			continue
+		}
+		for _, v := range visible {
+			if re.MatchString(v) {
+				real = append(real, fmt.Sprintf("real-identity: the real %s %q is visible: %q", id.what, id.val, mon.Truncate(v, 200)))
+				break
+			}
+		}
+	}
 	// real canaries
 	real = append(real, o.Real...)
 	// (iii)+(iv) real stdout/stderr and strace
@@ -545,7 +581,7 @@ func judge(d *mon.Driver, c *CaseData, o *Out, ext []string, called map[string]i
 	} else {
 		d.Event("cases_pure_no_os_call", 1)
 	}
-	if c.Kind == "recipe" && o.NEv > 0 && (c.Ctx == "clone" || c.Ctx == "go" || c.Ctx == "module" || c.Ctx == "cancel-defer" || strings.HasPrefix(c.Ctx, "late-")) {
+	if c.Kind == "recipe" && o.NEv > 0 && (c.Ctx == "clone" || c.Ctx == "go" || c.Ctx == "module" || c.Ctx == "cancel-defer" || c.Ctx == "bare-vos" || strings.HasPrefix(c.Ctx, "late-")) {
 		d.Sample(map[string]any{"op": c.Op, "variant": c.Variant, "ctx": c.Ctx, "route": c.Route, "op_src": c.OpSrc,
 			"result": mon.Truncate(o.Result, 120), "err": o.Err, "events": o.Evs, "virtual_state_changes": o.Diff})
 	}
